@@ -71,6 +71,7 @@ const char * const engine_counters[] = {
 /* ---------- per-socket state ---------- */
 struct req {
 	int live, cancelled, done, sock, dir, id;
+	int hard;		/* a recv/send of this request failed with a hard error */
 	void * cookie;
 	uint8_t * buf;
 	size_t buflen, min, start_off;
@@ -387,6 +388,8 @@ rd_callback(void * cookie, ssize_t n)
 	q->live = 0;
 	S->rd = NULL;
 	sim_trh(0xC1, (uint64_t)q->id, (uint64_t)n);
+	if (n >= 0 && q->hard)
+		sim_viol("C06.rd.err", "swallowed", "read id=%d reported %zd although a recv of this request had failed hard", q->id, n);
 	if (n > 0) {
 		R->cnt[N_RD_DONE]++;
 		if ((size_t)n < q->min || (size_t)n > q->buflen || (q->min == 0 && n < 1))
@@ -435,6 +438,8 @@ wr_callback(void * cookie, ssize_t n)
 	q->live = 0;
 	S->wr = NULL;
 	sim_trh(0xC2, (uint64_t)q->id, (uint64_t)n);
+	if (n >= 0 && q->hard)
+		sim_viol("C06.wr.err", "swallowed", "write id=%d reported %zd although a send of this request had failed hard", q->id, n);
 	if (n >= 0) {
 		R->cnt[N_WR_DONE]++;
 		if ((size_t)n < q->min || (size_t)n > q->buflen)
@@ -525,7 +530,12 @@ on_recv(struct vsock * vs, long result, int err)
 	}
 	if (S->rd == NULL || !S->rd->live)
 		sim_viol("C06.cancel.io", "recv", "recv on sock %d although no read request is outstanding (after completion or cancel)", (int)(S - ss));
-	(void)result;
+	else {
+		if (S->rd->hard)
+			sim_viol("C06.rd.err", "io-after-error", "read id=%d: recv again after a recv of this request had failed hard", S->rd->id);
+		if (result == -1 && err != EAGAIN && err != EWOULDBLOCK && err != EINTR)
+			S->rd->hard = 1;
+	}
 }
 
 static void
@@ -549,6 +559,12 @@ on_send(struct vsock * vs, const void * buf, long result, int err)
 	}
 	if (S->wr == NULL || !S->wr->live)
 		sim_viol("C06.cancel.io", "send", "send on sock %d although no write request is outstanding (after completion or cancel)", (int)(S - ss));
+	else {
+		if (S->wr->hard)
+			sim_viol("C06.wr.err", "io-after-error", "write id=%d: send again after a send of this request had failed hard", S->wr->id);
+		if (result == -1 && err != EAGAIN && err != EWOULDBLOCK && err != EINTR)
+			S->wr->hard = 1;
+	}
 }
 
 /* ---------- accept ---------- */
@@ -632,6 +648,7 @@ static struct {
 	int beh[MAXADDR];
 	uint64_t delay_us[MAXADDR];
 	uint64_t timeo_us;
+	int timeo_zero;		/* network_connect_timeo with a timeout of {0, 0} */
 	int next_j;		/* next address expected to be attempted */
 	int cur;		/* address currently being attempted, or -1 */
 	int concluded[MAXADDR];	/* failed at once / failed asynchronously as far as the kernel is concerned */
@@ -662,7 +679,7 @@ conn_check_abandon(const char * why)
 		R->cnt[N_CONN_ASYNCFAIL]++;
 		return;
 	}
-	if (CN.timeo_us > 0 && vk_now_us() >= CN.start_us[c] + CN.timeo_us) {
+	if ((CN.timeo_us > 0 || CN.timeo_zero) && vk_now_us() >= CN.start_us[c] + CN.timeo_us) {
 		CN.concluded[c] = 1;
 		R->cnt[N_CONN_TIMEO]++;
 		return;
@@ -852,12 +869,16 @@ issue_connect(const struct pline * l)
 	}
 	CN.sas[CN.naddr] = NULL;
 	CN.timeo_us = l->nargs > 0 && l->a[0] > 0 ? (uint64_t)l->a[0] : 0;
+	/* a timeout of exactly zero is a timeout too: an attempt that does not conclude at once is abandoned at once */
+	CN.timeo_zero = (l->nargs > 2 && l->a[2] == 1);
+	if (CN.timeo_zero)
+		CN.timeo_us = 0;
 	/* an address that never answers needs a timeout, or the request could never end */
-	if (CN.timeo_us == 0)
+	if (CN.timeo_us == 0 && !CN.timeo_zero)
 		for (i = 0; i < CN.naddr; i++)
 			if (CN.beh[i] == 6)
 				CN.beh[i] = 2;
-	if (l->nargs > 1 && l->a[1] == 1 && CN.timeo_us == 0)
+	if (l->nargs > 1 && l->a[1] == 1 && CN.timeo_us == 0 && !CN.timeo_zero)
 		CN.sa_b = sock_resolve_one("127.0.0.99:999", 0);
 	if (CN.sa_b == NULL)
 		for (i = 0; i < CN.naddr; i++)
@@ -873,7 +894,7 @@ issue_connect(const struct pline * l)
 	tv.tv_sec = (time_t)(CN.timeo_us / 1000000);
 	tv.tv_usec = (suseconds_t)(CN.timeo_us % 1000000);
 	LIB_ENTER();
-	if (CN.timeo_us > 0)
+	if (CN.timeo_us > 0 || CN.timeo_zero)
 		CN.cookie = network_connect_timeo(CN.sas, &tv, conn_callback, &CN);
 	else if (CN.sa_b != NULL)
 		CN.cookie = network_connect_bind(CN.sas, CN.sa_b, conn_callback, &CN);
@@ -1501,9 +1522,9 @@ gen_tape(struct prng * g, struct pline * l, int n, int pe, int pi, int pshort, i
 		else if (x < (unsigned)(pe + pi + pshort))
 			pline_tok(l, 2, (int64_t)TD_CAP, (int64_t)(prng_chance(g, 40) ? 1 : 1 + prng_n(g, 3000)));
 		else if (x < (unsigned)(pe + pi + pshort + perr)) {
-			static const int errs[] = { ECONNRESET, EPIPE, ETIMEDOUT, EIO };
+			static const int errs[] = { ECONNRESET, EPIPE, ETIMEDOUT, EIO, ENOBUFS, ENOMEM, ENOTCONN, EHOSTUNREACH };
 
-			pline_tok(l, 2, (int64_t)TD_ERRNO, (int64_t)errs[prng_n(g, 4)]);
+			pline_tok(l, 2, (int64_t)TD_ERRNO, (int64_t)errs[prng_n(g, 8)]);
 		} else
 			pline_tok(l, 1, (int64_t)TD_DEFAULT);
 	}
@@ -1686,7 +1707,7 @@ engine_gen(struct plan * P, uint64_t seed, struct prng * g)
 			int na = (int)prng_n(g, MAXADDR), a;
 			int64_t timeo = prng_chance(g, 55) ? (int64_t)(1000 + prng_n(g, 200000)) : 0;
 
-			l = plan_add(P, "step", "connect", 2, timeo, (int64_t)prng_chance(g, 20));
+			l = plan_add(P, "step", "connect", 3, timeo, (int64_t)prng_chance(g, 20), (int64_t)prng_chance(g, 7));
 			for (a = 0; a < na; a++) {
 				static const int behs[] = { 0, 1, 1, 2, 2, 2, 3, 3, 4, 5, 6, 6, 7, 8 };
 				int64_t d = prng_chance(g, 50) ? (int64_t)prng_n(g, 3000) : (int64_t)prng_n(g, 400000);
